@@ -289,6 +289,15 @@ pub fn jobs(prop: &str, tier: &str) -> Vec<Job> {
             // coded regions "for data covered by the statistics they were built from": in-statistics strings
             // must be accepted and read back, also with hundreds of dictionary entries / three generations
             dict_seed_jobs(&mut out, &[1, 6, 7], if thorough { 2 } else { 1 });
+            // coded compositions (columns / slices / strings over coded regions) across merge_regions from one, two and
+            // three sources of different shapes: values held by a source must be accepted by the merged region
+            let mut c = LifeCfg::new("C01");
+            c.script = 8;
+            c.clear = true;
+            c.merge = true;
+            c.coded_merges = true;
+            c.n_forms = 2;
+            life(&mut out, c, if thorough { 4 } else { 3 }, &[], &|i| i.coded, &|_, _| {});
             // Huffman-coded containers across generations: items arrive as slices and as read items of raw and
             // coded containers; a container merged from the live one must accept what was pushed into that one
             {
@@ -366,6 +375,15 @@ pub fn jobs(prop: &str, tier: &str) -> Vec<Job> {
             });
             // dictionary-coded storage with hundreds of entries / more than 64 KiB of dictionary / three generations
             dict_seed_jobs(&mut out, &[6, 7], if thorough { 2 } else { 1 });
+            {
+                // more than 2^20 items before the explored operations (clear, push, re-read)
+                let mut c = LifeCfg::new("C04");
+                c.clear = true;
+                c.n_forms = 1;
+                c.n_values = 3;
+                c.prefill = (1 << 20) + 3;
+                life(&mut out, c, 2, &[], &|i| prefill_entry(i) && i.strings, &|_, _| {});
+            }
         }
         "C06" => {
             use crate::m_huff::*;
@@ -391,6 +409,9 @@ pub fn jobs(prop: &str, tier: &str) -> Vec<Job> {
                     add8(fib_profile(k), 2, 1, &mut out);
                 }
                 add8(huge_total_profile(), 2, 0, &mut out);
+                out.push(job(|| Box::new(HuffBuildMachine::<u32>::new(uniform_profile(140_000, 1))), Mode::Bfs(BfsCfg::new(1)), false));
+                out.push(job(|| Box::new(HuffBuildMachine::<u32>::new(mixed_profile(70_000))), Mode::Bfs(BfsCfg::new(1)), false));
+                out.push(job(|| Box::new(HuffMachine::<u32>::new(fib_profile(40), 1)), Mode::Bfs(BfsCfg::new(2)), false));
                 add8(empty.clone(), 3, 2, &mut out);
                 add16(uniform_profile(257, 1), 2, 1, &mut out);
                 add16(uniform_profile(300, 2), 2, 1, &mut out);
@@ -407,6 +428,8 @@ pub fn jobs(prop: &str, tier: &str) -> Vec<Job> {
                 add8(fib_profile(18), 1, 0, &mut out);
                 add8(fib_profile(28), 1, 0, &mut out);
                 add8(huge_total_profile(), 1, 0, &mut out);
+                // more distinct symbols than a 16-bit quantity can number (needs a symbol type wider than u16)
+                out.push(job(|| Box::new(HuffBuildMachine::<u32>::new(uniform_profile(65_600, 1))), Mode::Bfs(BfsCfg::new(1)), false));
                 add8(empty.clone(), 2, 1, &mut out);
                 add16(uniform_profile(257, 1), 1, 0, &mut out);
                 add16(uniform_profile(300, 1), 2, 1, &mut out);
@@ -428,7 +451,7 @@ pub fn jobs(prop: &str, tier: &str) -> Vec<Job> {
                 for seed in 0..3 {
                     add(seed, Alphabet::AllBytes, 2, 0);
                 }
-                for seed in 3..9 {
+                for seed in 3..10 {
                     add(seed, Alphabet::Relative, 3, 1);
                 }
             } else {
@@ -438,7 +461,7 @@ pub fn jobs(prop: &str, tier: &str) -> Vec<Job> {
                 for seed in 0..3 {
                     add(seed, Alphabet::AllBytes, 1, 0);
                 }
-                for seed in 3..9 {
+                for seed in 3..10 {
                     add(seed, Alphabet::Relative, 1, 1);
                 }
             }
@@ -461,10 +484,22 @@ pub fn jobs(prop: &str, tier: &str) -> Vec<Job> {
                 c.n_forms = 1;
                 c.n_values = 3;
                 c.prefill = 70_000;
+                life(&mut out, c.clone(), 2, &[], &prefill_entry, &|_, _| {});
+                // and more than 2^20 items
+                c.prefill = (1 << 20) + 3;
                 life(&mut out, c, 2, &[], &prefill_entry, &|_, _| {});
             }
             // FlatStack::clear, incl. stacks whose region was built by merge_capacity (coded regions)
             stacks(&mut out, StackOracle::Sequence, if thorough { 5 } else { 4 }, &[], 3);
+            // dictionary-coded regions: a cleared region and a fresh one are told apart only by what a region merged
+            // from them learns; small alphabet from the start, and a cleared region that then sees > 1024 pushes
+            {
+                use crate::m_dict::{Alphabet, DictCfg, DictMachine};
+                for (seed, depth, merges) in [(0u8, if thorough { 5 } else { 4 }, 2usize), (1, if thorough { 4 } else { 3 }, 2), (10, if thorough { 2 } else { 1 }, 1)] {
+                    let cfg = DictCfg { seed, alphabet: Alphabet::Relative, max_merges: merges };
+                    out.push(job(move || Box::new(DictMachine::new(cfg.clone())), Mode::Bfs(BfsCfg::new(depth)), false));
+                }
+            }
         }
         "C10" => {
             let mut c = LifeCfg::new("C10");
@@ -480,6 +515,13 @@ pub fn jobs(prop: &str, tier: &str) -> Vec<Job> {
             life(&mut out, c, if thorough { 5 } else { 4 }, devs, &|_| true, &|_, _| {});
             stacks(&mut out, StackOracle::Presize, if thorough { 5 } else { 4 }, &[], 3);
             dict_seed_jobs(&mut out, &[6, 7], if thorough { 2 } else { 1 });
+            // Huffman-coded containers across generations, items arriving as read items of other coded containers
+            {
+                use crate::m_huff::*;
+                for p in [small_profiles(3).into_iter().find(|p| p.name == "counts[1, 2, 3]").unwrap(), fib_profile(6)] {
+                    out.push(job(move || Box::new(HuffMachine::<u8>::new(p.clone(), 2)), Mode::Bfs(BfsCfg::new(if thorough { 3 } else { 2 })), false));
+                }
+            }
         }
         "C11" => {
             let mut c = LifeCfg::new("C11");
